@@ -3,6 +3,7 @@ import Httoop.Model.Utf8
 import Httoop.Model.Percent
 import Httoop.Model.Form
 import Httoop.Ops.Uri
+import Httoop.Ops.Auth
 /-
   Line protocol driver: one operation per input line, one canonical line out.
   `op arg …` — octet-string arguments are lower-case hex (`-` = empty), numbers decimal.
@@ -22,7 +23,7 @@ def opsPercent (op : String) (args : List String) : Option String :=
   | _, _ => none
 
 def runOp (op : String) (args : List String) : String :=
-  match opsPercent op args <|> Ops.opsUri op args with
+  match opsPercent op args <|> Ops.opsUri op args <|> Ops.opsAuth op args with
   | some r => r
   | none => "bad-op"
 
